@@ -576,3 +576,9 @@ def advisories(res, verif=None):
         out.append({"kind": "iterator-method-without-contract", "props": {"C08", "C13", "C14"},
                     "reason": "iterator method(s) without a contract: %s -- an override of a provided Iterator method changes what is yielded and no clause covers it" % ", ".join(u["fn"] for u in un)})
     return out
+
+
+def hint_lost_fns(res):
+    """functions in which a proof hint / closure contract / restructuring rule lost its anchor: a failed obligation there
+    may be failing for want of the hint, so it is never reported as a violation on its own"""
+    return set(sk.get("fn") for sk in (res.get("meta", {}) or {}).get("skipped_anchors", []) if sk.get("fn"))
